@@ -513,3 +513,9 @@ def replay(case, acc):
 
 def unit_test(case):
     return "# entry field keys (values v0, v1, ... by position), middleware: " + repr(case) + "\n"
+
+
+def ENV_SHARDS(tier):
+    """The broad, cheap families: run again in a fresh interpreter per environment (engine.run_environments)."""
+    return [s for s in shards('quick') if s[0] in ("short", "ctor", "longorders")]
+
